@@ -13,7 +13,7 @@ RULE = ('every string of length <= 3 [quick: length 3 only in 5 of the 17 positi
         'plus 30 payloads (Python expressions, statements after a newline, engine/API names, dunder names, each carrying '
         'a unique marker) as a quoted atom in EVERY syntactic position (clause-head name, body-goal name, head argument, '
         'goal argument, functor name, list element, directive argument, both sides of =), and every hostile identifier as '
-        'a variable name in head and body. For each output: (i) provenance - the marker occurs only inside constants, '
+        'a variable name in head and body; goals named like the compiler\'s internal markers ($CUTIF, ...) with hostile arguments. For each output: (i) provenance - the marker occurs only inside constants, '
         'clause-local names or a function name that is an identifier; (ii) reference closure - module body is function '
         'definitions only, no Attribute/Import/Lambda/Global/class/decorator/default, every name read is local or an '
         'engine API name, no API name is assigned; (iii) dynamic - the output is loaded with __builtins__ replaced by a '
@@ -32,6 +32,9 @@ PAYLOADS = [
     "__import__", "__class__", "zq7.__class__", "zq7)]): pass #", "zq7'", 'zq7"', "zq7\\", "zq7 # comment", "zq7\r\nimport os",
     "zq7;import os", "zq7=1", "lambda: zq7", "zq7_1", "zq7_n", "doBreak", "l1", "arg1", "zq7 import os", "yield zq7", "functor",
 ]
+INTERNAL_NAMES = ['$CUTIF', '$cutif', '$CUT', '$BREAK', '$VAR', 'cutIf1', 'doBreak', '$CUTIF_1', '$IF', '$label']
+INTERNAL_TEMPLATES = ['p :- %n(%s), q.', 'p :- q, %n(%s).', 'p :- %n(%s).', 'p :- ( a -> %n(%s) ; b ).', 'p :- %n(%s, b), q.',
+                      'p :- ( %n(%s) -> a ; b ), c.', 'p :- \\+ %n(%s), q.', 'p(X) :- %n(X, %s), q(X).']
 HOSTILE_VARS = ['ATOM_NIL', 'True', 'False', 'None', 'Query', 'Unify', 'L1', 'Arg1', 'DoBreak', 'CutIf1', '__builtins__',
                 '__import__', '_query', '_unify', 'X1', '_', '__', 'Variable', 'Atom']
 
@@ -260,6 +263,21 @@ def run_shard(spec):
                 if idx % 3001 == 0:
                     acc.sample({'position': pos, 'source': text}, limit=1)
         if kind == 'payloads':
+            # goals whose NAME is taken from the compiler's own internal vocabulary (a quoted atom can
+            # spell any name), with hostile arguments
+            for nm in INTERNAL_NAMES:
+                for tmpl in INTERNAL_TEMPLATES:
+                    for s_ in PAYLOADS + ['x', 'X y', 'a = b', 'lbl']:
+                        qs = quote(s_)
+                        if qs is None:
+                            continue
+                        idx += 1
+                        if idx % n != k:
+                            continue
+                        text = tmpl.replace('%n', quote(nm)).replace('%s', qs)
+                        with watchdog(60):
+                            res = check_program(text)
+                        fold((4, idx), res, {'text': text}, text, 'internal-goal-name')
             for vi, v in enumerate(HOSTILE_VARS):
                 for ti, tmpl in enumerate(['p(%s) :- q(%s).', 'p(f(%s)) :- %s = [], q([]).', 'p :- q(%s), r(%s, []).', 'p([%s|T]) :- \\+ q(%s), T = [].',
                                            'p(%s, []).', 'p :- ( q(%s) -> r(%s) ; s([]) ).']):
